@@ -6,6 +6,7 @@
 
     load      e, _ := cl.m.LoadOrCompute(key, …)                 (lock-free map operation)
     locked    e.m.Lock(); if e.dead { e.m.Unlock(); continue }   (the entry's mutex)
+              if now.Before(e.lastSeen) { now = e.lastSeen }       (repair f8b61d0)
               e.lastSeen = now; ok := e.l.AllowN(now, n); e.m.Unlock(); return ok
     gcEntry   value.m.Lock(); full := …; if value.lastSeen.Before(ddl) && full
               { value.dead = true; cl.m.Delete(key) }; value.m.Unlock()
@@ -69,6 +70,13 @@ def CEntry.idle (e : CEntry) (now : Nat) : Prop :=
 instance (e : CEntry) (now : Nat) : Decidable (e.idle now) := by
   unfold CEntry.idle; split <;> infer_instance
 
+/-- `if now.Before(e.lastSeen) { now = e.lastSeen }`: the caller took `now` before it got the
+    lock; the entry's clock never goes back -/
+def CEntry.clock (e : CEntry) (now : Nat) : Nat :=
+  match e.lastSeen with
+  | some ls => max ls now
+  | none => now
+
 /-- one atomic step; the verdict returned to the caller, if the step returns one -/
 def CState.step (s : CState) : Step → Option Bool × CState
   | .load k =>
@@ -83,8 +91,9 @@ def CState.step (s : CState) : Step → Option Bool × CState
     if s.holds id addr then
       if (s.heap id).dead then (none, s)
       else
-        let r := (s.heap id).b.allowN s.limit s.burst now n
-        (some r.1, { s with heap := upd s.heap id ⟨r.2, some now, false⟩ })
+        let t := (s.heap id).clock now
+        let r := (s.heap id).b.allowN s.limit s.burst t n
+        (some r.1, { s with heap := upd s.heap id ⟨r.2, some t, false⟩ })
     else (none, s)
   | .gcEntry k now =>
     match s.map k with
